@@ -2,7 +2,7 @@
 //! data (no panic / overflow / bounds / debug assertion), in checked and unchecked builds; a
 //! digest of every output is logged so that the offline join can compare profiles.
 use super::*;
-use crate::dynciph::{Shape, ALL_SHAPES};
+use crate::dynciph::Shape;
 use crate::registry::{entries, Made};
 use std::panic::{catch_unwind, AssertUnwindSafe};
 
@@ -43,7 +43,7 @@ pub fn run(ctx: &Ctx) -> Report {
                 let n = [1usize, 1, 10, 43][j as usize % 4];
                 let data = gen::gen(&mut rng, n * bs, bc);
                 note_classes(&mut rep, kc, bc);
-                let shape = if n == 1 { ALL_SHAPES[(i as usize + j as usize) % 3] } else { [Shape::Blocks, Shape::BlocksInout, Shape::BackendPar][(i as usize) % 3] };
+                let shape = if n == 1 { [Shape::Block, Shape::BlockB2b, Shape::BlockInout, Shape::BackendBlockInplace][(i as usize + j as usize) % 4] } else { [Shape::Blocks, Shape::BlocksInout, Shape::BackendPar, Shape::BackendParInplace][(i as usize) % 4] };
                 for encrypt in [true, false] {
                     let mut out = data.clone();
                     let separate = shape.needs_input() || (i + j) % 2 == 1;
